@@ -144,6 +144,9 @@ func (pe *PolicyEngine) getPeer(p string) (k8s.Peer, error) {
 	}
 	// check if input peer is an ip address
 	if net.ParseIP(p) != nil {
+		if net.ParseIP(p).To4() == nil { // only IPv4 addresses are supported (netset.IPBlockFromIPAddress panics on others)
+			return nil, errors.New(netpolerrors.InvalidPeerErrStr(p))
+		}
 		peerIPBlock, err := netset.IPBlockFromIPAddress(p)
 		if err != nil {
 			return nil, err
